@@ -110,7 +110,10 @@ def run_miri(prop, target, seed, first, count, procs, per_proc, miri_seed_base=0
     while (jobs and not stop) or running:
         while jobs and not stop and len(running) < procs:
             lo, hi, ms = jobs.pop()
-            of = os.path.join(D.SCRATCH, "miri-%s-%s-%d-%d.json" % (prop, target, os.getpid(), lo))
+            # fixed-width name: the interpreted program walks over its argument
+            # strings, so their length is part of what the interpreter's seeded
+            # scheduler sees; a replay must present strings of the same length
+            of = os.path.join(D.SCRATCH, "miri-%010d-%08d.json" % (os.getpid(), lo))
             args = ["run", "--prop", prop, "--seed", str(seed), "--from", str(lo), "--to", str(hi), "--out", of]
             if portable:
                 args.append("--portable")
@@ -154,7 +157,7 @@ def run_miri(prop, target, seed, first, count, procs, per_proc, miri_seed_base=0
                     out["violation"] = {"how": "report", "family": v["index"], "violations": v["violations"],
                                         "replay": v["family"], "target": target, "miri_seed": ms,
                                         "extra_flags": extra_flags, "rustflags_extra": rustflags_extra,
-                                        "portable": portable}
+                                        "portable": portable, "lo": lo, "hi": hi}
                     stop = True
                 continue
             # the interpreter aborted
@@ -166,7 +169,7 @@ def run_miri(prop, target, seed, first, count, procs, per_proc, miri_seed_base=0
                 raise D.HarnessError("Miri worker %s %d..%d failed (exit %s):\n%s" % (target, lo, hi, rc, err[-3000:]))
             out["violation"] = {"how": "miri", "family": fam, "owner": owner, "what": what, "diag": diag,
                                 "target": target, "miri_seed": ms, "extra_flags": extra_flags,
-                                "rustflags_extra": rustflags_extra, "portable": portable}
+                                "rustflags_extra": rustflags_extra, "portable": portable, "lo": lo, "hi": hi}
             stop = True
     for pid in list(running):
         running[pid][0].kill()
@@ -208,19 +211,45 @@ def replay_under_miri(path, sub):
     target = sub["miri_target"]
     ensure(target, sub.get("rustflags_extra", ""))
     env = miri_env(target, sub.get("miri_seed", 0), sub.get("extra_flags", ""), sub.get("rustflags_extra", ""))
-    args = ["replay", path]
-    if sub.get("portable"):
-        args.append("--portable")
-    r = subprocess.run(miri_cmd(target, args), cwd=D.SIM, env=env, capture_output=True, text=True, timeout=3000)
-    if r.returncode == 0:
-        return False, "clean"
-    try:
-        parsed = json.loads(r.stdout.strip().splitlines()[-1])
-        if parsed.get("violations"):
-            v = parsed["violations"][0][1]
-            return True, "%s: %s" % (v["kind"], v["what"])
-    except Exception:
-        pass
+    rng = sub.get("miri_range")
+    if rng:
+        # the whole interpreter process again: same families, same interpreter
+        # seed, hence the same schedule and the same state carried from one
+        # family to the next
+        os.makedirs(D.SCRATCH, exist_ok=True)
+        of = os.path.join(D.SCRATCH, "miri-%010d-%08d.json" % (os.getpid(), rng["lo"]))
+        args = ["run", "--prop", rng["prop"], "--seed", str(rng["seed"]), "--from", str(rng["lo"]), "--to",
+                str(rng["hi"]), "--out", of]
+        if sub.get("portable"):
+            args.append("--portable")
+        r = subprocess.run(miri_cmd(target, args), cwd=D.SIM, env=env, capture_output=True, text=True, timeout=3000)
+        if r.returncode == 0:
+            return False, "clean"
+        try:
+            with open(of) as f:
+                rep = json.load(f)
+            os.unlink(of)
+            if rep.get("violation"):
+                v = rep["violation"]["violations"][0][1]
+                return True, ("%s: %s  [family %s, only when families %d..%d run in one interpreter process with this "
+                              "interpreter seed: the answer depends on the schedule and on what the earlier families "
+                              "left behind]" % (v["kind"], v["what"], rep["violation"]["index"], rng["lo"], rng["hi"] - 1))
+        except Exception:
+            pass
+    else:
+        args = ["replay", path]
+        if sub.get("portable"):
+            args.append("--portable")
+        r = subprocess.run(miri_cmd(target, args), cwd=D.SIM, env=env, capture_output=True, text=True, timeout=3000)
+        if r.returncode == 0:
+            return False, "clean"
+        try:
+            parsed = json.loads(r.stdout.strip().splitlines()[-1])
+            if parsed.get("violations"):
+                v = parsed["violations"][0][1]
+                return True, "%s: %s" % (v["kind"], v["what"])
+        except Exception:
+            pass
     owner, what = classify(r.stderr)
     if owner or any(m in r.stderr for m in UB_MARKERS):
         diag = " | ".join(l.strip() for l in r.stderr.splitlines() if l.startswith("error"))[:600]
@@ -240,6 +269,14 @@ def report_miri_violation(prop, seed, v):
     with open(path) as f:
         sub = json.load(f)["substrate"]
     bad, text = replay_under_miri(path, sub)
+    if not bad and "lo" in v:
+        # not a property of that family alone: replay the interpreter process
+        with open(path) as f:
+            fam = json.load(f)
+        fam["substrate"]["miri_range"] = {"prop": prop, "seed": seed, "lo": v["lo"], "hi": v["hi"]}
+        with open(path, "w") as f:
+            json.dump(fam, f)
+        bad, text = replay_under_miri(path, fam["substrate"])
     if not bad:
         raise D.HarnessError("Miri violation in family %s (%s) did not reproduce from %s" % (v["family"], v["target"], path))
     return {"replay": path, "text": "[miri %s seed %d] %s" % (v["target"], v["miri_seed"], text)}
@@ -259,7 +296,7 @@ MIRI_PLAN = {
     "C10": [("aarch64", 32, 800, "", ""), ("i686", 0, 400, "", "")],
     "C13": [("aarch64", 48, 800, "", "")],
     "C14": [("i686", 96, 1600, "", ""), ("s390x", 48, 1600, "", ""), ("aarch64", 0, 1600, "", "")],
-    "C15": [("x86_64", 128, 4096, "", "-Zmiri-preemption-rate=0.1"),
+    "C15": [("x86_64", 192, 4096, "", "-Zmiri-preemption-rate=0.1"),
             ("aarch64", 0, 2048, "", "-Zmiri-preemption-rate=0.1"),
             ("x86_64", 0, 2048, "-Ctarget-feature=+avx2", "-Zmiri-preemption-rate=0.1")],
     "C16": [("x86_64", 64, 1600, "", "")],
@@ -292,6 +329,7 @@ def _extra_substrates_miri(prop, tier, seed, t0):
     runs = []
     for (target, q, t, rf, xf) in plan:
         n = q if tier == "quick" else t
+        n = int(n * float(os.environ.get("VERIF_MIRI_SCALE", "1")))
         if n <= 0:
             continue
         per = max(2, (n + D.NCPU - 1) // D.NCPU) if tier == "quick" else 25
